@@ -540,6 +540,28 @@ def Sys.resetT (s : Sys) (a : Nat) (falseAlarm : Bool) : Sys :=
 def Sys.dropRecord (s : Sys) (a : Nat) : Sys :=
   s.setAgent a ⟨(s.agents a).registered, (s.agents a).display, (s.agents a).tcell, none⟩
 
+/-- assignment to the public attributes of an agent's T cell (`tcells[a].repeated_anomaly_threshold = k`, …) -/
+def Sys.configT (s : Sys) (a : Nat) (f : TCell → TCell) : Sys :=
+  match (s.agents a).tcell with
+  | none => s
+  | some t => s.setAgent a ⟨(s.agents a).registered, (s.agents a).display, some (f t), (s.agents a).record⟩
+
+def TCell.setRep (t : TCell) (k : Int) : TCell :=
+  ⟨t.profile, k, t.anergyThr, t.anomaly, t.anergy, t.flag, t.lastS1, t.lastS2⟩
+
+def TCell.setAnergy (t : TCell) (k : Int) : TCell :=
+  ⟨t.profile, t.repThr, k, t.anomaly, t.anergy, t.flag, t.lastS1, t.lastS2⟩
+
+def TCell.setProfile (t : TCell) (pr : Profile) : TCell :=
+  ⟨pr, t.repThr, t.anergyThr, t.anomaly, t.anergy, t.flag, t.lastS1, t.lastS2⟩
+
+/-- `treg.rules = …; treg.stability_threshold = …` -/
+def Sys.setTreg (s : Sys) (g : Treg) : Sys := ⟨s.minTrain, s.tol, s.varThr, g, s.mem, s.clock, s.agents⟩
+
+/-- `memory.capacity = c` -/
+def Sys.setCap (s : Sys) (c : Int) : Sys :=
+  ⟨s.minTrain, s.tol, s.varThr, s.treg, ⟨c, s.mem.sigs⟩, s.clock, s.agents⟩
+
 /-- `mark_agent_updated` -/
 def Sys.markUpdated (s : Sys) (a : Nat) : Sys :=
   match (s.agents a).record with
@@ -591,6 +613,12 @@ inductive Op where
   | pruneOld (hours : Nat)
   /-- `import_signatures(data)`; `export_signatures()` is a pure read of the memory -/
   | importSigs (data : List Sig)
+  /-- direct assignment to public configuration attributes after construction -/
+  | setRep (a : Nat) (k : Int)
+  | setAnergy (a : Nat) (k : Int)
+  | setProfile (a : Nat) (pr : Profile)
+  | setTreg (g : Treg)
+  | setCap (c : Int)
 
 /-- what an operation shows to the outside -/
 inductive Obs where
@@ -612,6 +640,11 @@ def Sys.step (s : Sys) : Op → Sys × Obs
   | .expire => (s.expire, .done)
   | .pruneOld h => (s.pruneOld h, .done)
   | .importSigs data => (s.importSigs data, .imported data)
+  | .setRep a k => (s.configT a (·.setRep k), .done)
+  | .setAnergy a k => (s.configT a (·.setAnergy k), .done)
+  | .setProfile a pr => (s.configT a (·.setProfile pr), .done)
+  | .setTreg g => (s.setTreg g, .done)
+  | .setCap c => (s.setCap c, .done)
 
 /-- run a history; the observations come out in order -/
 def Sys.run (s : Sys) : List Op → Sys × List Obs
@@ -625,12 +658,24 @@ inductive TOp where
   | flag (nonEmpty : Bool)
   | reset
   | resetFA
+  | setRep (k : Int)
+  | setAnergy (k : Int)
+  | setProfile (pr : Profile)
 
 def TCell.step (t : TCell) : TOp → TCell × Option Response
   | .inspect p => ((t.inspect p).1, some (t.inspect p).2)
   | .flag b => (t.flagManually b, none)
   | .reset => (t.reset, none)
   | .resetFA => (t.resetFA, none)
+  | .setRep k => (t.setRep k, none)
+  | .setAnergy k => (t.setAnergy k, none)
+  | .setProfile pr => (t.setProfile pr, none)
+
+/-- the history as the watcher lived it: every operation with whether the watcher was anergic and which baseline was
+    in force when it happened -/
+def TCell.log (t : TCell) : List TOp → List (TOp × Bool × Profile)
+  | [] => []
+  | op :: rest => (op, t.isAnergic, t.profile) :: ((t.step op).1).log rest
 
 def TCell.run (t : TCell) : List TOp → TCell
   | [] => t
